@@ -585,3 +585,11 @@ Example copies_premises_hold :
   fcnt (w_frame 5) < 65535 /\ d_relaxed (w_dev 5 3) = false /\ fb_down (w_st 5 3) /\
   length (ds_inbox (fst copies_result)) = 1%nat /\ counters (snd copies_result) = [3].
 Proof. vm_compute. repeat split; auto. Qed.
+
+(* the premises of the existence theorem (AnswerProof.confirmed_uplink_is_acknowledged) are met by the witness *)
+From Lospan Require Import Proof.AnswerProof.
+Example acknowledgement_premises_hold :
+  mtype (w_frame 5) = ConfirmedDataUp /\ stale (w_dev 5 3) (w_frame 5) = false /\ sendable (w_st 5 3) /\
+  valid_datr (w_rx (w_raw 5) 100 1000) /\ has_app [9] (d_appeui (w_dev 5 3)) = true /\
+  map (fun d => N.testbit (nth 5 (dl_raw d) 0) 5) (downs (snd (prun [9] 30 (w_st 5 3) (w_prog 5 100 1000) []))) = [true].
+Proof. vm_compute. repeat split; auto; discriminate. Qed.
